@@ -609,6 +609,9 @@ def oracle(case, obs):
                 if lost:
                     fails.append(("C05", "trim_keeps_accessed_keys", f"site {k}: accessed keys {lost} were removed by trim: {fin}"))
 
+    # ---- C18: collecting and applying the changes finishes without an internal error
+    if obs["collect_errors"] or obs["apply_error"]:
+        fails.append(("C18", "finish_total", f"flags {sorted(flags)} approved {sorted(approved)}: collect {obs['collect_errors']} apply {obs['apply_error']}"))
     # ---- value-level clauses per site (C01 create, C05 categories, C14 aggregation, C17 clone)
     if obs["collect_errors"] or obs["apply_error"] or not isinstance(obs["finals"], dict) or "syntax_error" in obs["finals"]:
         return fails
